@@ -1,12 +1,14 @@
 package props
 
 import (
+	"bytes"
 	"encoding/json"
 	"fmt"
 	"sort"
 	"strings"
 	"sync/atomic"
 
+	"verif/cli"
 	"verif/ev"
 	"verif/mc"
 	refplay "verif/ref/play"
@@ -28,6 +30,7 @@ func init() {
 			c07Eval(e, m, &c, true)
 		},
 		"args-ops": func(e *Env, raw json.RawMessage) { c07ReplayArgs(e, raw) },
+		"yaml-spelling": func(e *Env, raw json.RawMessage) { c07YAMLEval(e, decode[c07YAMLCase](raw)) },
 	}})
 }
 
@@ -224,6 +227,87 @@ func c07Inst(i int, rest bool, set [7]bool) refplay.Inst {
 	return in
 }
 
+// c07YAMLFeatures: the same document written with YAML features (anchors and aliases, flow
+// style, comments, quoting) must give the same file as the plain spelling, under every flag subset;
+// an alias shares nothing between instances (the flags still replace instance 0's settings only).
+type c07YAMLCase struct {
+	Name    string   `json:"name"`
+	Feature string   `json:"with_yaml_feature"`
+	Plain   string   `json:"plain"`
+	Flags   []string `json:"flags"`
+	Path    string   `json:"path"`
+}
+
+func c07YAMLEval(e *Env, c c07YAMLCase) {
+	e.R.Eval(1)
+	run := func(doc string) ([]byte, string) {
+		if c.Path == "cli" {
+			r := cli.Run(cli.Opt{Stdin: []byte(doc)}, append([]string{"write"}, c.Flags...)...)
+			if !r.OK() {
+				return nil, firstLine(r.Stderr)
+			}
+			return r.Stdout, ""
+		}
+		var cfg writeCfg
+		for i := 0; i+1 < len(c.Flags); i += 2 {
+			v := c.Flags[i+1]
+			switch c.Flags[i] {
+			case "--bpm":
+				var b uint64
+				fmt.Sscan(v, &b)
+				cfg.Flags.BPM = &b
+			case "--key", "-k":
+				cfg.Flags.Key = &v
+			case "--velocity":
+				cfg.Flags.Vel = &v
+			}
+		}
+		b, err := implWriteLib(doc, cfg)
+		if err != nil {
+			return nil, err.Error()
+		}
+		return b, ""
+	}
+	a, ea := run(c.Feature)
+	b, eb := run(c.Plain)
+	if ea != "" || eb != "" || !bytes.Equal(a, b) {
+		e.R.Fail(ev.Fail{Class: "C07/yaml-spelling/" + c.Name, Msg: fmt.Sprintf("flags %v (%s): the document written with %s does not give the file of its plain spelling (errors %q / %q)\n--- with feature ---\n%s--- plain ---\n%s", c.Flags, c.Path, c.Name, ea, eb, c.Feature, c.Plain), Kind: "yaml-spelling", Case: c})
+	}
+}
+
+func c07YAMLFeatures(e *Env) {
+	inst := func(extra string) string {
+		return "- chord:\n    degree: \"5\"\n    name: \"7\"\n  values:\n    - \"1\"\n" + extra
+	}
+	set := "  bpm: 90\n  velocity: ff\n  key: Eb\n  meta:\n    txt: hi\n"
+	pairs := []struct{ name, feat, plain string }{
+		{"alias-of-an-instance", "- &a\n  chord:\n    degree: \"5\"\n    name: \"7\"\n  values:\n    - \"1\"\n" + set + "- *a\n- *a\n", inst(set) + inst(set) + inst(set)},
+		{"alias-of-values", "- chord: {degree: \"5\", name: \"7\"}\n  values: &v [\"1\"]\n- chord: {degree: \"5\", name: \"7\"}\n  values: *v\n" + set, inst("") + inst(set)},
+		{"alias-of-meta-and-settings", "- chord: {degree: \"5\", name: \"7\"}\n  values: [\"1\"]\n  bpm: &b 90\n  velocity: &d ff\n  key: &k Eb\n  meta: &m {txt: hi}\n- chord: {degree: \"5\", name: \"7\"}\n  values: [\"1\"]\n  bpm: *b\n  velocity: *d\n  key: *k\n  meta: *m\n", inst(set) + inst(set)},
+		{"flow-style-and-comments", "# a piece\n- {chord: {degree: \"5\", name: \"7\"}, values: [\"1\"], bpm: 90, velocity: ff, key: Eb, meta: {txt: hi}} # first\n- {values: [\"1\"]}\n", inst(set) + "- values:\n    - \"1\"\n"},
+		{"unquoted-and-single-quoted-scalars", "- chord:\n    degree: 5\n    name: '7'\n  values:\n    - 1\n  bpm: 90\n  velocity: ff\n  key: Eb\n  meta:\n    txt: hi\n", inst(set)},
+		{"document-start-marker", "---\n" + inst(set), inst(set)},
+	}
+	flagSets := [][]string{nil, {"--bpm", "77"}, {"--key", "A"}, {"-k", "A"}, {"--velocity", "p", "--key", "F#m"}, {"--bpm", "61", "--bpm", "77"}}
+	var cases []c07YAMLCase
+	for _, p := range pairs {
+		for _, f := range flagSets {
+			for _, path := range []string{"lib", "cli"} {
+				if path == "lib" && len(f) > 0 && (f[0] == "-k" || len(f) == 4 && f[0] == "--bpm") {
+					continue
+				}
+				cases = append(cases, c07YAMLCase{p.name, p.feat, p.plain, f, path})
+			}
+		}
+	}
+	mc.ParFor(len(cases), func(i int) {
+		c07YAMLEval(e, cases[i])
+		e.R.Trace(1)
+		e.R.NonTrivialN(1)
+	})
+	e.R.AddPart(ev.Part{Name: "yaml-spellings", Enumerated: "6 YAML spellings (alias of an instance / of values / of settings and meta, flow style with comments, unquoted and single-quoted scalars, document-start marker) x 6 flag sets (incl. -k and a repeated flag) x {in-process, real binary}: same bytes as the plain spelling", Executions: int64(len(cases)), Exhaustive: true})
+}
+
 func runC07(e *Env) {
 	e.R.Rule = "settings histories: per instance kind {chord, rest} (free) and presence of bpm, meter, key, velocity, txt, lic, mrk (one deviation each), all histories within the stated length/deviation bounds; value sweeps of every setting over its domain; 16 flag subsets x 256 two-instance documents through the real binary; explicit-state search of the real midiArgs cells. distinct = distinct document+flags; non-trivial = at least one setting or flag present"
 	e.R.Assume("reference: ref/play (tempo within <1 us of 60e6/bpm, numerator and log2 denominator, signature from line of fifths, exact UTF-8 text bytes); velocities learned from six single-dynamic documents and required to be strictly increasing pp<p<mp<mf<f<ff in 1..127; same-tick order not prescribed (per-tick multisets)")
@@ -406,6 +490,7 @@ func runC07(e *Env) {
 	})
 	e.R.AddPart(ev.Part{Name: "flags-x-documents", Enumerated: fmt.Sprintf("16 subsets of {--bpm,--meter,--key,--velocity} x 256 documents (each of the 4 settings present/absent on instance 0 and on instance 1): in-process all 4096, real binary every %d-th; plus 15 non-empty flag subsets x 4 documents whose first instance is a rest (real binary, all)", step), Executions: int64(len(fcases)), Exhaustive: true})
 
+	c07YAMLFeatures(e)
 	c07ArgsGraph(e)
 	var ks []string
 	for k := range m.Vel {
